@@ -10,6 +10,7 @@ CONSTANTS Dg, Pg,          \* degree (number of coefficients) and number of dire
           Acts,            \* enabled action names
           IdxCat,          \* catalogue of index expressions
           Scalars,         \* catalogue of rational scalars <<n,d>> used as constants
+          CmpScalars,      \* scalars used on the right of comparisons
           ReshapeCat,      \* catalogue of target element shapes for reshape
           MaxLen,          \* length bound of a behaviour
           MaxObjs,         \* bound on the number of objects
@@ -241,6 +242,25 @@ Sum(i, axis) ==
             Z == TLCEval([p \in 0..(Pg - 1) |-> [e \in 0..(Size(res) - 1) |-> SumSet(members(e), p)]])
         IN NewObj(FreshU(heap, res, Z), [a |-> "sum", i |-> i, axis |-> axis])
 
+\* ------------------------------------------------------------------ comparisons
+\* x rel y is the truth value of the NumPy comparison of the ZEROTH coefficients over all elements and directions
+Rel(rel, a, b) == CASE rel = "lt" -> RLt(a, b) [] rel = "le" -> RLe(a, b) [] rel = "gt" -> RLt(b, a) [] rel = "ge" -> RLe(b, a)
+                    [] rel = "eq" -> a = b [] rel = "ne" -> a # b
+CmpUU(rel, i, j) ==
+  /\ "cmp" \in Acts /\ CanStep /\ i \in Us /\ j \in Us /\ Broadcastable(ES(objs[i]), ES(objs[j]))
+  /\ LET x == objs[i]  y == objs[j]  es == BroadcastShape(ES(x), ES(y))
+         res == \A p \in 0..(Pg - 1) : \A e \in 0..(Size(es) - 1) :
+                   LET r == TLCEval(Unravel(e, es)) IN
+                   Rel(rel, Val(heap, x, Pos(x, 1, p, BcastSrc(r, ES(x), es))), Val(heap, y, Pos(y, 1, p, BcastSrc(r, ES(y), es))))
+     IN hist' = Append(hist, [a |-> "cmp", rel |-> rel, i |-> i, j |-> j, c |-> RZero, res |-> (res = TRUE)])
+  /\ UNCHANGED <<heap, objs>>
+CmpUS(rel, i, c) ==
+  /\ "cmp" \in Acts /\ CanStep /\ i \in Us
+  /\ LET x == objs[i]
+         res == \A p \in 0..(Pg - 1) : \A e \in 0..(NE(x) - 1) : Rel(rel, Val(heap, x, Pos(x, 1, p, e)), c)
+     IN hist' = Append(hist, [a |-> "cmp", rel |-> rel, i |-> i, j |-> 0, c |-> c, res |-> (res = TRUE)])
+  /\ UNCHANGED <<heap, objs>>
+
 Next ==
   \/ \E op \in {"add", "sub", "mul", "div"} : \E i \in 1..Len(objs) : \E j \in 1..Len(objs) :
         \/ Bin(op, i, j) \/ IBin(op, i, j) \/ IBinA(op, i, j)
@@ -256,6 +276,7 @@ Next ==
         \/ Transpose(i)
         \/ \E nes \in ReshapeCat : Reshape(i, nes)
         \/ \E ax \in {None, 0, 1, -1, -2} : Sum(i, ax)
+        \/ \E rel \in {"lt", "le", "gt", "ge", "eq"} : (\E j \in 1..Len(objs) : CmpUU(rel, i, j)) \/ (\E c \in CmpScalars : CmpUS(rel, i, c))
 
 \* ------------------------------------------------------------------ properties of the design
 TypeOK == \A i \in 1..Len(objs) :
